@@ -3,17 +3,19 @@ package main
 // C11: input hygiene — effect-free prefixes, index provenance, optional callbacks, derefs.
 
 import (
-	"sort"
 	"fmt"
 	"go/ast"
 	"go/types"
+	"sort"
+
+	"golang.org/x/tools/go/types/typeutil"
 	"strings"
 )
 
 var _ = ast.Inspect
 
 func init() {
-	propertyRules["C11"] = []ruleFn{rulePrefix, ruleIdx, ruleOptionalCB, rulePreCommitEnabled, ruleDeref, ruleStaleIndex, ruleViewResetCover, ruleDefs, ruleRejectedNoTimer, ruleCVPending}
+	propertyRules["C11"] = []ruleFn{rulePrefix, ruleIdx, ruleOptionalCB, rulePreCommitEnabled, ruleDeref, ruleStaleIndex, ruleViewResetCover, ruleDefs, ruleRejectedNoTimer, ruleCVPending, ruleMissingRebuilt}
 	propertyExplain["C11"] = "G-PREFIX: in each handler every effect site (state write other than the liveness note, effectful callback, typed send, call of an effectful function) is behind that handler's admission condition, so inadmissible or duplicate inputs reach no effect; IDX: every index into a per-validator table or the validator list is a range key, an admitted sender index, MyIndex under MyIndex>=0, or the primary index; G-OPTIONAL-CB: callbacks checkConfig allows to be nil are called only under their enabling fact; G-DEREF: stored slots are dereferenced only when known non-nil; STALE-INDEX. Panic freedom is decided for these classes only (not for nil results of application callbacks, type assertions in payload implementations, division by a zero increment, misuse before Start)."
 }
 
@@ -641,6 +643,118 @@ func ruleRejectedNoTimer(c *RC) *RuleResult {
 	}
 	if nfail < 3 {
 		r.unresolved(fmt.Sprintf("paths of the payload handlers on which a verification fails (found %d)", nfail))
+	}
+	return r
+}
+
+// G-MISSING-REBUILT (C11): the list of requested transactions holds each hash once. The function that makes the list
+// (appends to it while going through the proposal's hashes) can run more than once for a proposal — on the proposal and
+// again when recovery is asked for — so it starts from an empty list, or appends only what is not in it yet. A hash that
+// is listed twice survives its delivery: the same transaction handed over again counts as requested, and is acted upon.
+func ruleMissingRebuilt(c *RC) *RuleResult {
+	r := &RuleResult{Rule: "G-MISSING-REBUILT", Kind: "GUARD", Doc: "the function that lists the missing transactions starts from an empty list or appends only hashes not yet listed (it is called again when recovery is asked for)"}
+	isList := func(info *types.Info, e ast.Expr) bool {
+		sel, ok := ast.Unparen(e).(*ast.SelectorExpr)
+		if !ok {
+			return false
+		}
+		s := info.Selections[sel]
+		return s != nil && s.Kind() == types.FieldVal && s.Obj().Name() == "MissingTransactions" && c.Prog.FieldOwner[s.Obj().(*types.Var).Origin()] == "Context"
+	}
+	for _, fn := range c.Prog.dbftFuncs() {
+		if fn.Decl == nil || fn.Decl.Body == nil {
+			continue
+		}
+		info := fn.Pkg.TypesInfo
+		// an append to the list inside a loop
+		var loop ast.Node
+		var app *ast.AssignStmt
+		var stack []ast.Node
+		ast.Inspect(fn.Decl.Body, func(n ast.Node) bool {
+			if n == nil {
+				stack = stack[:len(stack)-1]
+				return true
+			}
+			stack = append(stack, n)
+			as, ok := n.(*ast.AssignStmt)
+			if !ok || len(as.Lhs) != 1 || len(as.Rhs) != 1 || !isList(info, as.Lhs[0]) {
+				return true
+			}
+			call, ok := ast.Unparen(as.Rhs[0]).(*ast.CallExpr)
+			if !ok || len(call.Args) < 2 {
+				return true
+			}
+			if id, ok := ast.Unparen(call.Fun).(*ast.Ident); !ok || id.Name != "append" || !isList(info, call.Args[0]) {
+				return true
+			}
+			for _, anc := range stack {
+				switch anc.(type) {
+				case *ast.RangeStmt, *ast.ForStmt:
+					if loop == nil {
+						loop, app = anc, as
+					}
+				}
+			}
+			return true
+		})
+		if loop == nil {
+			continue
+		}
+		r.Sites++
+		// (a) emptied before the loop
+		emptied := false
+		for _, st := range fn.Decl.Body.List {
+			if st.Pos() >= loop.Pos() {
+				break
+			}
+			if as, ok := st.(*ast.AssignStmt); ok && len(as.Lhs) == 1 && isList(info, as.Lhs[0]) && len(as.Rhs) == 1 {
+				switch x := ast.Unparen(as.Rhs[0]).(type) {
+				case *ast.Ident:
+					emptied = emptied || x.Name == "nil"
+				case *ast.SliceExpr:
+					if x.Low == nil && x.High != nil {
+						if tv, ok := info.Types[x.High]; ok && tv.Value != nil && tv.Value.String() == "0" {
+							emptied = true
+						}
+					}
+				case *ast.CallExpr:
+					if id, ok := ast.Unparen(x.Fun).(*ast.Ident); ok && id.Name == "make" {
+						emptied = true
+					}
+				}
+			}
+		}
+		// (b) the append is under a membership test of the list
+		guarded := false
+		ast.Inspect(loop, func(n ast.Node) bool {
+			ifs, ok := n.(*ast.IfStmt)
+			if !ok || ifs.Pos() > app.Pos() || ifs.End() < app.End() {
+				return true
+			}
+			ast.Inspect(ifs.Cond, func(m ast.Node) bool {
+				if call, ok := m.(*ast.CallExpr); ok && len(call.Args) >= 1 && isList(info, call.Args[0]) {
+					if f, ok := typeutil.Callee(info, call).(*types.Func); ok && f.Pkg() != nil && f.Pkg().Path() == "slices" && (f.Name() == "Contains" || f.Name() == "Index") {
+						guarded = true
+					}
+				}
+				return true
+			})
+			return true
+		})
+		ncall := len(c.A.callers[fn])
+		switch {
+		case emptied:
+			r.ok(fn.Name + " empties the list of missing transactions before it fills it")
+		case guarded:
+			r.ok(fn.Name + " appends only hashes that are not listed yet")
+		case ncall <= 1:
+			r.ok(fmt.Sprintf("%s is called from one place only", fn.Name))
+		default:
+			r.fail(fn.Name+"/missing-list-extended", c.Prog.Pos(app), fmt.Sprintf("%s appends to the list of requested transactions without emptying it first and is called from %d places: run again for the same proposal (when recovery is asked for) it lists every hash that is still missing a second time; one copy survives the delivery, so the same transaction handed over again passes as requested and is acted upon", fn.Name, ncall))
+		}
+	}
+	if r.Sites == 0 {
+		r.unresolved("function that builds the list of missing transactions")
 	}
 	return r
 }
